@@ -178,8 +178,12 @@ class Pkg(object):
                 raise AnalysisError("E0", "cannot parse %s: %s" % (rel, e))
             self.mods[name] = mod
         from . import canon as _canon
+        self.renames = []
+        if os.environ.get("SA_NO_CANON") != "1":
+            from .rename import canonical_names
+            self.renames = canonical_names({name: m.tree for name, m in self.mods.items()})
         _canon.SIGS.clear()
-        _canon.SIGS.update(_canon.build_signatures([m.raw_tree for m in self.mods.values()]))
+        _canon.SIGS.update(_canon.build_signatures([m.tree for m in self.mods.values()]))
         for mod in self.mods.values():
             mod.canonicalise()
             self._index(mod)
